@@ -644,6 +644,21 @@ def _workbook_readback(tier="quick", seed=0):
     cd.add_series("precise", PRECISE)
     cd.add_series("precise reversed", tuple(reversed(PRECISE)))
     cases.append(("values with many significant digits", XL_CHART_TYPE.LINE, cd))
+    # names and labels holding markup characters: the cache holds the characters the cell holds (no second escaping on any route)
+    cd = CategoryChartData()
+    cd.categories = ["R&D", "a<b", 'q"uote', "x>y & z"]
+    cd.add_series("R&D <Q3>", (1, 2, 3, 4))
+    cd.add_series("&amp; already", (4, 3, 2, 1))
+    cases.append(("names with markup characters", XL_CHART_TYPE.BAR_CLUSTERED, cd))
+    xy = XyChartData()
+    sp = xy.add_series("x&y <1>")
+    sp.add_data_point(1, 2)
+    sp.add_data_point(2, 3)
+    cases.append(("xy series name with markup characters", XL_CHART_TYPE.XY_SCATTER, xy))
+    bb = BubbleChartData()
+    sp = bb.add_series("b&b >2<")
+    sp.add_data_point(1, 2, 3)
+    cases.append(("bubble series name with markup characters", XL_CHART_TYPE.BUBBLE, bb))
     xy = XyChartData()
     sp = xy.add_series("precise xy")
     for a, b in zip(PRECISE, reversed(PRECISE)):
